@@ -1,4 +1,4 @@
-\* the code as found (known finding: count_total pagination skips a certificate): TLC must report Prop_Queries violated
+\* defect D4 as found before fix fe8a768 (serial 0 => listings panic): TLC must report Prop_Queries violated
 SPECIFICATION Spec
 CONSTANTS
     Owners = {"A", "B"}
@@ -6,8 +6,8 @@ CONSTANTS
     Bodies = {1, 2}
     KeySeq <- KeySeqGen
     ZeroSerials = {"z0"}
-    Impl = "asfound"
-    ZeroSerialPanics = FALSE
+    Impl = "intended"
+    ZeroSerialPanics = TRUE
     MaxOps = 4
     PageSizes = {0, 1, 2}
     PageModes = {"key", "total", "offset"}
